@@ -87,7 +87,9 @@ func c11Time(r *rand.Rand) uint64 {
 	return uint64(r.Int63n(1 << 33))
 }
 
-func (c11) Gen(tier string, seed int64, emit func([]Ev)) {
+func (c11) Gen(tier string, seed int64, emit0 func([]Ev)) {
+	emit, flush := grouper(emit0, "pes")
+	defer flush()
 	r := rand.New(rand.NewSource(seed))
 	reps := 1
 	if tier == "thorough" {
@@ -161,8 +163,11 @@ func (c11) Gen(tier string, seed int64, emit func([]Ev)) {
 }
 
 func (c11) Exec(h []Ev) []Ev {
+	var held holder
 	for _, e := range h {
+		e["earlier_same"] = true
 		e["panic"] = guard(func() {
+			defer func() { e["earlier_same"] = held.same() }()
 			switch GS(e["op"]) {
 			case "withpes":
 				pts := UW64(e["pts"])
@@ -188,6 +193,9 @@ func (c11) Exec(h []Ev) []Ev {
 					e["haspts"], e["hasdts"] = hd.HasPTS(), hd.HasDTS()
 					e["pts"], e["dts"] = W64(hd.PTS()), W64(hd.DTS())
 					e["data"] = B(hd.Data())
+					defer held.hold(func() string {
+						return jsonOf([]interface{}{hd.PacketStartCodePrefix(), hd.StreamId(), hd.DataAligned(), hd.HasPTS(), hd.HasDTS(), hd.PTS(), hd.DTS(), hd.Data()})
+					})
 				}
 				e["input_same"] = string(b) == string(keep)
 			case "tspes":
